@@ -608,7 +608,8 @@ HCIread_header(accrec_t *access_rec, compinfo_t *info, comp_info *c_info, model_
     (void)m_info;
 
     /* Get the compression header (description record) */
-    HPread_drec(access_rec->file_id, access_rec->ddid, &local_ptbuf);
+    if (HPread_drec(access_rec->file_id, access_rec->ddid, &local_ptbuf) <= 0)
+        HGOTO_ERROR(DFE_COMPINFO, FAIL);
 
     /* Extract info */
     p = local_ptbuf + 2;
